@@ -52,6 +52,9 @@ Definition Lquad_mult w (v : list Q) (b : option (list Q)) (c : Q) : Leaf (WS w)
   leaf_quad (WS w) (vmul v) (vmul v) false b c.
 Definition Lquad_mat w (m : list (list Q)) (b : option (list Q)) (c : Q) : Leaf (WS w) :=
   leaf_quad (WS w) (mvec m) (mvec (transpose (length w) m)) false b c.
+(* f.grad_lipschitz = c  (the property setter) on a leaf *)
+Definition Lsetlip w (l : Leaf (WS w)) (c : @lip Q) : Leaf (WS w) :=
+  @mkLeaf Q (WS w) (lf_val l) (lf_grad l) c (lf_linear l).
 (* operators *)
 Definition Oid w : Oper (WS w) (WS w) := op_id (WS w).
 Definition Oscal w (s : Q) : Oper (WS w) (WS w) := op_scal (WS w) s.
